@@ -14,6 +14,7 @@ import (
 	"strings"
 	"sync"
 	"testing"
+	"time"
 
 	"github.com/go-spring/log"
 	"pgregory.net/rapid"
@@ -377,4 +378,104 @@ func TestC11_Concurrent(t *testing.T) {
 			}
 		}
 	}
+}
+
+// TestC11_Saturated: the location of a record does not depend on what kind of logger serves the
+// tag, nor on the state that logger is in. Each site is called while the tag is served by an
+// asynchronous logger whose buffer is full (the appender behind it is held), under every
+// buffer-full policy and through the rolling-file logger's asynchronous mode as well; whatever
+// is delivered after the appender is released must carry the location of its calling statement.
+// (Which events are delivered is C06's business; here only delivered events are judged, and the
+// check demands that at least the events accepted before the buffer filled up arrive.)
+func TestC11_Saturated(t *testing.T) {
+	vk.Rule(rule)
+	if len(programs) == 0 {
+		t.Skip("no program")
+	}
+	defer log.Destroy()
+	p := programs[0]
+	if err := configure(false, true); err != nil {
+		t.Fatalf("VERIF-INCONCLUSIVE C11: %v", err)
+	}
+	want := map[int]expect{}
+	var plain []site
+	for _, s := range p.sites {
+		if s.Shape == "goroutine" || s.Shape == "nested" {
+			continue // the held appender would hold their goroutines too
+		}
+		c := &siteCtx{ctx: context.Background(), tag: tag}
+		s.Fn(c)
+		for _, e := range c.exp {
+			want[e.id] = e
+		}
+		plain = append(plain, s)
+	}
+	rapid.Check(t, func(t *rapid.T) {
+		policy := rapid.SampledFrom([]string{"DiscardOldest", "Discard", "Block"}).Draw(t, "policy")
+		fast := rapid.Bool().Draw(t, "fast")
+		enable := rapid.IntRange(0, 4).Draw(t, "enable") != 0
+		size := rapid.SampledFrom([]int{100, 101, 128}).Draw(t, "size")
+		calls := rapid.IntRange(size+5, size+150).Draw(t, "calls")
+		if policy == "Block" {
+			calls = rapid.IntRange(20, size-2).Draw(t, "callsBlock") // never fills: a blocked caller would wait for the held appender
+		}
+		first := rapid.IntRange(0, len(plain)-1).Draw(t, "first")
+		if fast && vk.Known("C11:fast-caller-off-by-one") {
+			fast = false
+		}
+		log.Destroy()
+		vk.ResetRecs()
+		gate := vk.NewGate()
+		vk.SetBehavior("rec", gate)
+		if err := log.Refresh(map[string]string{
+			"enableCaller": fmt.Sprint(enable), "fastCaller": fmt.Sprint(fast),
+			"appender.rec.type": "Rec", "logger.l.type": "AsyncLogger", "logger.l.tags": "_c11_t",
+			"logger.l.bufferSize": fmt.Sprint(size), "logger.l.bufferFullPolicy": policy, "logger.l.appenderRef.ref": "rec",
+		}); err != nil {
+			t.Fatalf("VERIF-INCONCLUSIVE C11: %v", err)
+		}
+		vk.Eval()
+		vk.Class(fmt.Sprintf("saturated:%s:fast=%v:caller=%v", policy, fast, enable))
+		made := 0
+		c := &siteCtx{ctx: context.Background(), tag: tag}
+		for i := 0; made < calls; i++ {
+			s := plain[(first+i)%len(plain)]
+			c.exp = c.exp[:0]
+			s.Fn(c)
+			made += len(c.exp)
+		}
+		for i := 0; i < made+10; i++ {
+			gate.Release <- struct{}{}
+		}
+		if done, _ := vk.Within(30*time.Second, log.Destroy); !done {
+			vk.HardFail("TestC11_Saturated", map[string]any{"policy": policy, "size": size, "calls": calls}, "C11: Destroy did not return after the held appender was released")
+		}
+		var items []vk.Item
+		for _, r := range vk.AllRecs() {
+			items = append(items, r.Items()...)
+		}
+		vk.SetBehavior("rec", nil)
+		if len(items) < min(made, size)-1 {
+			t.Fatalf("VERIF-INCONCLUSIVE C11: only %d of %d events delivered (buffer %d, %s)", len(items), made, size, policy)
+		}
+		if made > size && policy != "Block" {
+			vk.NonTrivial(fmt.Sprintf("%s/%d/%d/%d/%v/%v", policy, size, calls, first, fast, enable))
+		}
+		for _, it := range items {
+			e, ok := want[int(it.ID)]
+			if !ok {
+				t.Fatalf("VERIF-INCONCLUSIVE C11: unknown event id %d", it.ID)
+			}
+			if !enable {
+				if it.File != "" || it.Line != 0 {
+					t.Fatalf("VERIF-VIOLATION C11: caller lookup is disabled but a record delivered by a saturated %s asynchronous logger carries %s:%d", policy, short(it.File), it.Line)
+				}
+				continue
+			}
+			if it.File != e.file || it.Line != e.line {
+				t.Fatalf("VERIF-VIOLATION C11: the record of site id=%d, logged while the %s asynchronous logger's buffer (size %d) was full, says %q:%d; its calling statement is at %s:%d (fast=%v)", it.ID, policy, size, short(it.File), it.Line, short(e.file), e.line, fast)
+			}
+		}
+		vk.Sample(map[string]any{"policy": policy, "size": size, "events_logged": made, "delivered": len(items), "fast": fast, "caller": enable})
+	})
 }
